@@ -55,7 +55,8 @@ def slice(ctx: fw.Ctx) -> fw.Outcome:
                              else [f"  {pascal.lower()} = \"x\"", f"  {pascal}= \"x\"", f"  {pascal} : \"x\"", f"  X{pascal} = \"x\""]
                              if kind == "str" else [f"  {pascal} = \"ba\"ss\"", f"  {pascal}  = bass"])
             lines = R.text.split(R.newline)
-            k = lines.index("[Song]") + 2
+            # (the section's own header: a line `[Song]` may also sit in another section's body as an unparsable line)
+            k = next(i for i in range(len(lines) - 1) if lines[i] == "[Song]" and lines[i + 1] == "{") + 2
             lines.insert(k, bad)
             R.text = R.newline.join(lines)
         cases.append((src, R))
